@@ -103,4 +103,10 @@ TEXT = {
   "note": "interleavings sampled beyond length 2; purity is judged by raw-draw counts on the shared source",
   "technique": "TLA+ model checking (TLC) of mapping/stream interleavings + replay of TLC-generated interleavings with trace validation",
  },
+ "C19": {
+  "level": "TLC enumerates every weight assignment over {unweighted,0,1,2,6} for two nested non-terminals and checks NonNegative, SumToOne, RatiosKept and Idempotent on the normalisation step function (a no-reset-per-rule variant must fail) and the zero-weight contract of the weighted choice for all raw draws (GERandom); weighted class hierarchies are instantiated with fresh classes, extracted three times and the projected weights validated by TLC against the declared weights; ProgressivelyTerminalDecider and the stack representation's weighted choice are driven through all boundary raw draws and TLC checks that no zero-weight production is chosen while a positive one is offered.",
+  "ref": "DESIGN.md section 4 C19",
+  "note": "tolerance 2e-4; all-zero rules excluded",
+  "technique": "TLA+ model checking (TLC) of the normalisation + replay of weighted hierarchies and exhaustive scripted draws of the weight-aware choosers, judged by TLC",
+ },
 }
